@@ -139,7 +139,7 @@ def trigJobs (sid owner : Nat) : List Reaction → Val → List Job
 
 theorem trigger_eq (owner : Nat) (arg : Val) : ∀ (rs : List Reaction) (k : K),
     trigger k owner rs arg =
-      { k with queue := k.queue ++ trigJobs k.nextSid owner rs arg,
+      { k with jobs := k.jobs ++ trigJobs k.nextSid owner rs arg,
                enq := k.enq ++ trigJobs k.nextSid owner rs arg,
                enqEver := k.enqEver ++ trigJobs k.nextSid owner rs arg,
                nextSid := k.nextSid + rs.length } := by
